@@ -59,10 +59,12 @@ pub enum Ext {
     /// a field whose wire name differs from the Rust field name (`#[multipart(rename = "f")]`)
     /// with a field-level limit
     MpRenamedField,
+    /// a field read by the streaming-to-disk reader (`TempFile`) with a field-level limit
+    MpTempFileField,
 }
 
 impl Ext {
-    const ALL: [Ext; 16] = [
+    const ALL: [Ext; 17] = [
         Ext::Bytes,
         Ext::String,
         Ext::Json,
@@ -79,6 +81,7 @@ impl Ext {
         Ext::MpRepInterleaved,
         Ext::MpRepInterleaved3,
         Ext::MpRenamedField,
+        Ext::MpTempFileField,
     ];
     fn name(self) -> &'static str {
         match self {
@@ -98,6 +101,7 @@ impl Ext {
             Ext::MpRepInterleaved => "multipart-repeated-field-limit-interleaved",
             Ext::MpRepInterleaved3 => "multipart-repeated-field-limit-interleaved3",
             Ext::MpRenamedField => "multipart-renamed-field-limit",
+            Ext::MpTempFileField => "multipart-tempfile-field-limit",
         }
     }
     fn is_mp(self) -> bool {
@@ -112,6 +116,7 @@ impl Ext {
                 | Ext::MpRepInterleaved
                 | Ext::MpRepInterleaved3
                 | Ext::MpRenamedField
+                | Ext::MpTempFileField
         )
     }
     /// the limited field `f` arrives in several parts
@@ -339,6 +344,39 @@ mp_renamed! {
     "100B", 100 => MpN100;
     "1000B", 1000 => MpN1000;
     "4096B", 4096 => MpN4096;
+}
+
+macro_rules! mp_tempfile {
+    ($($lim:literal, $n:literal => $ty:ident;)*) => {
+        $(
+            #[derive(MultipartForm)]
+            struct $ty { #[multipart(limit = $lim)] f: actix_multipart::form::tempfile::TempFile }
+            impl MpGet for $ty {
+                fn data(self) -> Vec<u8> {
+                    use std::io::{Read as _, Seek as _};
+                    let mut file = self.f.file.reopen().unwrap_or_else(|e| mc_core::machinery(format!("reopen temp file: {e}")));
+                    let _ = file.seek(std::io::SeekFrom::Start(0));
+                    let mut v = vec![];
+                    file.read_to_end(&mut v).unwrap_or_else(|e| mc_core::machinery(format!("read temp file: {e}")));
+                    v
+                }
+            }
+        )*
+        async fn mp_tempfile_field(limit: usize, req: &HttpRequest, pl: &mut dev::Payload) -> Result<Vec<u8>, actix_web::Error> {
+            match limit {
+                $( $n => mp_run::<$ty>(req, pl).await, )*
+                _ => mc_core::machinery(format!("no temp-file multipart form type for field limit {limit}")),
+            }
+        }
+    };
+}
+
+mp_tempfile! {
+    "0B", 0 => MpF0;
+    "1B", 1 => MpF1;
+    "2B", 2 => MpF2;
+    "8B", 8 => MpF8;
+    "64B", 64 => MpF64;
 }
 
 macro_rules! mp_repeated {
@@ -612,6 +650,10 @@ async fn extract(case: &Case12, req: &HttpRequest, pl: &mut dev::Payload, want: 
             }
         }
         Ext::MpRenamedField => match mp_renamed_field(case.limit, req, pl).await {
+            Ok(b) => ok_outcome(&b, want),
+            Err(e) => classify_web_error(&e),
+        },
+        Ext::MpTempFileField => match mp_tempfile_field(case.limit, req, pl).await {
             Ok(b) => ok_outcome(&b, want),
             Err(e) => classify_web_error(&e),
         },
@@ -1023,6 +1065,9 @@ pub fn enumerate(tier: &str) -> Vec<Case12> {
         for &limit in limits.iter().chain(big_limits.iter()) {
             let big = limit > 30_000;
             if big && ext.is_mp() {
+                continue;
+            }
+            if ext == Ext::MpTempFileField && !(thorough && [0usize, 1, 2, 8, 64].contains(&limit) || [0usize, 1, 2, 8, 64].contains(&limit)) {
                 continue;
             }
             if (matches!(ext, Ext::MpTextField | Ext::MpBytesField | Ext::MpRenamedField) || ext.is_mp_repeated()) && !MP_FIELD_LIMITS.contains(&limit) {
